@@ -1,9 +1,13 @@
 /-
   SlacProofs.TimeStr — printing and parsing with the default formats `%Y-%m-%d`, `%H:%M:%S`,
-  `%Y-%m-%d %H:%M:%S`: zero-padded decimal fields, and the canonical-text parsers invert them.
+  `%Y-%m-%d %H:%M:%S`: zero-padded decimal fields; chrono's formatter (SlacModel.TimeFmt) prints the canonical texts
+  and chrono's parser (SlacModel.TimeParse) inverts them, agreeing with the reference parsers `parseDate`/`parseTime`.
 -/
 import SlacProofs.TimeNum
+import SlacProofs.TimeRfcScan
 set_option autoImplicit false
+set_option linter.unusedSimpArgs false
+set_option linter.unusedVariables false
 namespace Slac.Time
 open Stdlib
 
@@ -87,10 +91,6 @@ def timeText (h mi s : Nat) : Str := pad 2 h ++ ':' :: (pad 2 mi ++ ':' :: pad 2
 /-- `YYYY-MM-DD HH:MM:SS` -/
 def datetimeText (y : Int) (m d h mi s : Nat) : Str := dateText y m d ++ ' ' :: timeText h mi s
 
-def fmtDate : Str := ['%', 'Y', '-', '%', 'm', '-', '%', 'd']
-def fmtTime : Str := ['%', 'H', ':', '%', 'M', ':', '%', 'S']
-def fmtDatetime : Str := fmtDate ++ ' ' :: fmtTime
-
 theorem fmtYear_small (y : Int) (h0 : 0 ≤ y) (h1 : y ≤ 9999) : fmtYear y = pad 4 y.toNat := by
   simp [fmtYear, h0, h1]
 
@@ -135,99 +135,192 @@ theorem parseTime_timeText (h mi s : Nat) (hh : h < 100) (hmi : mi < 100) (hs : 
 
 /-! ### printing with the default formats -/
 
+theorem writeTwo_zero (v : Nat) : writeTwo v .zero = pad 2 v := by
+  unfold writeTwo pad
+  by_cases h : v < 10
+  · simp [h, Nat.toDigits_of_lt_base h]
+  · have : 2 ≤ (Nat.toDigits 10 v).length := by
+      rw [Nat.toDigits_of_base_le (by omega) (by omega)]
+      have := @Nat.length_toDigits_pos 10 (v / 10)
+      simp; omega
+    simp [h]
+    omega
+
+theorem writeYear_zero (y : Int) : writeYear y .zero = fmtYear y := by
+  unfold writeYear fmtYear
+  by_cases h1 : 1000 ≤ y ∧ y ≤ 9999
+  · have : 0 ≤ y ∧ y ≤ 9999 := by omega
+    simp [h1, this]
+  · by_cases h2 : 0 ≤ y ∧ y < 10000
+    · have h3 : 0 ≤ y ∧ y ≤ 9999 := by omega
+      have h4 : ¬ y < 0 := by omega
+      have h5 : y.natAbs = y.toNat := by omega
+      simp [h1, h2, h3, fmtInt, h4, pad, h5]
+    · have h3 : ¬ (0 ≤ y ∧ y ≤ 9999) := by omega
+      by_cases h4 : y < 0
+      · simp [h1, h2, h3, fmtInt, h4, pad]; omega
+      · have h5 : y.natAbs = y.toNat := by omega
+        simp [h1, h2, h3, fmtInt, h4, pad, h5]; omega
+
+theorem items_fmtDate : items fmtDate = [num0 .year, .literal ['-'], num0 .month, .literal ['-'], num0 .day] := by decide
+theorem items_fmtTime : items fmtTime = [num0 .hour, .literal [':'], num0 .minute, .literal [':'], num0 .second] := by decide
+theorem items_fmtDatetime : items fmtDatetime =
+    [num0 .year, .literal ['-'], num0 .month, .literal ['-'], num0 .day, .space [' '],
+     num0 .hour, .literal [':'], num0 .minute, .literal [':'], num0 .second] := by decide
+
 theorem strftime_date (t : DT) : strftime t fmtDate = some (dateText t.year t.month t.day) := by
-  simp [strftime, fmtDate, dateText]
+  simp [strftime, items_fmtDate, formatItems, fmtItem, fmtNumeric, num0, writeTwo_zero, writeYear_zero, dateText]
 
 theorem strftime_time (t : DT) : strftime t fmtTime = some (timeText t.hour t.minute t.second) := by
-  simp [strftime, fmtTime, timeText]
+  simp [strftime, items_fmtTime, formatItems, fmtItem, fmtNumeric, num0, writeTwo_zero, timeText]
 
 theorem strftime_datetime (t : DT) :
     strftime t fmtDatetime = some (datetimeText t.year t.month t.day t.hour t.minute t.second) := by
-  simp [strftime, fmtDatetime, fmtDate, fmtTime, datetimeText, dateText, timeText]
+  simp [strftime, items_fmtDatetime, formatItems, fmtItem, fmtNumeric, num0, writeTwo_zero, writeYear_zero,
+    datetimeText, dateText, timeText]
+
+/-! ### chrono's parser on the canonical texts -/
+
+/-- fields after parsing `YYYY-MM-DD` (followed by anything) with the items of `%Y-%m-%d` -/
+theorem parse_date_chars (y m d : Nat) (hy : y < 10000) (hm : m < 100) (hd : d < 100) (r : Str) (its : List Item) :
+    parseItems (num0 .year :: .literal ['-'] :: num0 .month :: .literal ['-'] :: num0 .day :: its)
+      ((y / 1000).digitChar :: (y / 100 % 10).digitChar :: (y / 10 % 10).digitChar :: (y % 10).digitChar :: '-' ::
+       (m / 10).digitChar :: (m % 10).digitChar :: '-' :: (d / 10).digitChar :: (d % 10).digitChar :: r) {} =
+      if (1 ≤ m ∧ m ≤ 12) ∧ (1 ≤ d ∧ d ≤ 31) then
+        parseItems its r { year := some (y : Int), month := some m, day := some d }
+      else .error .outOfRange := by
+  rw [parseItems_ok (by rw [num0, item_year4 _ y hy, setYear_small _ rfl y hy]; rfl), parseItems_ok (item_lit _ _ _)]
+  by_cases h1 : 1 ≤ m ∧ m ≤ 12
+  · rw [parseItems_ok (by rw [num0, item_num2 .month _ rfl rfl m hm, setNumeric, setMonth_eval _ rfl, if_pos h1]; rfl),
+      parseItems_ok (item_lit _ _ _)]
+    by_cases h2 : 1 ≤ d ∧ d ≤ 31
+    · rw [parseItems_ok (by rw [num0, item_num2 .day _ rfl rfl d hd, setNumeric, setDay_eval _ rfl, if_pos h2]; rfl)]
+      simp [h1, h2]
+    · rw [parseItems_err (by rw [num0, item_num2 .day _ rfl rfl d hd, setNumeric, setDay_eval _ rfl, if_neg h2]; rfl)]
+      simp [h2]
+  · rw [parseItems_err (by rw [num0, item_num2 .month _ rfl rfl m hm, setNumeric, setMonth_eval _ rfl, if_neg h1]; rfl)]
+    simp [h1]
+
+/-- fields after parsing `HH:MM:SS` with the items of `%H:%M:%S`, on top of date fields -/
+theorem parse_time_chars (h mi s : Nat) (hh : h < 100) (hmi : mi < 100) (hs : s < 100) (oy : Option Int) (om od : Option Nat) :
+    parseItems [num0 .hour, .literal [':'], num0 .minute, .literal [':'], num0 .second]
+      [(h / 10).digitChar, (h % 10).digitChar, ':', (mi / 10).digitChar, (mi % 10).digitChar, ':',
+       (s / 10).digitChar, (s % 10).digitChar] { year := oy, month := om, day := od } =
+      if h < 24 ∧ mi < 60 ∧ s ≤ 60 then
+        .ok ([], { year := oy, month := om, day := od, hourDiv12 := some (h / 12), hourMod12 := some (h % 12),
+                   minute := some mi, second := some s })
+      else .error .outOfRange := by
+  by_cases h1 : h < 24
+  · rw [parseItems_ok (by rw [num0, item_num2 .hour _ rfl rfl h hh, setNumeric, setHour_eval _ rfl rfl, if_pos h1]; rfl),
+      parseItems_ok (item_lit _ _ _)]
+    by_cases h2 : mi < 60
+    · rw [parseItems_ok (by rw [num0, item_num2 .minute _ rfl rfl mi hmi, setNumeric, setMinute_eval _ rfl, if_pos h2]; rfl),
+        parseItems_ok (item_lit _ _ _)]
+      by_cases h3 : s ≤ 60
+      · rw [parseItems_ok (by rw [num0, item_num2 .second _ rfl rfl s hs, setNumeric, setSecond_eval _ rfl, if_pos h3]; rfl)]
+        simp [parseItems, h1, h2, h3]
+      · rw [parseItems_err (by rw [num0, item_num2 .second _ rfl rfl s hs, setNumeric, setSecond_eval _ rfl, if_neg h3]; rfl)]
+        simp [h3]
+    · rw [parseItems_err (by rw [num0, item_num2 .minute _ rfl rfl mi hmi, setNumeric, setMinute_eval _ rfl, if_neg h2]; rfl)]
+      simp [h2]
+  · rw [parseItems_err (by rw [num0, item_num2 .hour _ rfl rfl h hh, setNumeric, setHour_eval _ rfl rfl, if_neg h1]; rfl)]
+    simp [h1]
+
+theorem validDate_bounds {y : Int} {m d : Nat} (hv : validDate y m d = true) : (1 ≤ m ∧ m ≤ 12) ∧ (1 ≤ d ∧ d ≤ 31) := by
+  obtain ⟨_, hm1, hm12, hd1, hd⟩ := (validDate_iff y m d).1 hv
+  rcases daysInMonth_cases y m hm1 hm12 with ⟨_, e⟩ | ⟨_, e⟩ | ⟨_, _, e⟩ | ⟨_, _, e⟩ <;> omega
 
 /-! ### the builtins -/
 section
 variable {N : Type} [NumX N]
 
-theorem stringToDate_str (s : Str) :
-    stringToDate [(.str s : Value N)] =
-      match parseDate s with
-      | some (some (y, m, d)) => some (.ok (encode ⟨daysFromCivil y m d, 0⟩))
-      | some none => some (.error (custom "input is out of range"))
-      | none => none := by unfold stringToDate; rfl
-
-theorem stringToTime_str (s : Str) :
-    stringToTime [(.str s : Value N)] =
-      match parseTime s with
-      | some (some ms) => some (.ok (encode ⟨0, ms⟩))
-      | some none => some (.error (custom "input is out of range"))
-      | none => none := by unfold stringToTime; rfl
-
-theorem stringToDatetime_str (s : Str) :
-    stringToDatetime [(.str s : Value N)] =
-      if s.length == 19 && s[10]? == some ' ' then
-        match parseDate (s.take 10), parseTime (s.drop 11) with
-        | some (some (y, m, d)), some (some ms) => some (.ok (encode ⟨daysFromCivil y m d, ms⟩))
-        | some _, some _ => some (.error (custom "input is out of range"))
-        | _, _ => none
-      else none := by unfold stringToDatetime; rfl
+theorem encode_eq (t : DT) : (encode t : Value N) = encodeMs t.totalMs := rfl
 
 theorem dateToString_str (fmt : Str) (v : Value N) :
     dateToString [.str fmt, v] =
       match decode v with
       | .error e => some (.error e)
-      | .ok t => (strftime t fmt).map fun s => .ok (.str s) := by unfold dateToString; rfl
+      | .ok t => some (fmtResult (strftime t fmt)) := by unfold dateToString; rfl
 
 /-- `string_to_date` on the canonical text of a date: its day number, or "out of range" if the date does not exist -/
 theorem stringToDate_dateText (y : Int) (m d : Nat) (h0 : 0 ≤ y) (h1 : y ≤ 9999) (hm : m < 100) (hd : d < 100) :
     stringToDate [(.str (dateText y m d) : Value N)] =
       if validDate y m d then some (.ok (encode ⟨daysFromCivil y m d, 0⟩))
       else some (.error (custom "input is out of range")) := by
-  rw [stringToDate_str, parseDate_dateText y m d h0 h1 hm hd]
+  have hy : ((y.toNat : Nat) : Int) = y := by omega
+  have hp := parse_date_chars y.toNat m d (by omega) hm hd [] []
+  rw [dateText_chars y m d h0 h1 hm hd]
+  simp only [stringToDate, defaultString, List.getElem?_cons_succ, List.getElem?_nil, parseAll, items_fmtDate]
+  rw [hp, hy]
   by_cases hv : validDate y m d = true
-  · simp only [hv, if_true]
-  · simp only [hv, if_false, Bool.false_eq_true]
+  · have hb := validDate_bounds hv
+    simp [hb, parseItems, toNaiveDate_ymd y m d none, hv, optEqOr, finish, encode, encodeMs, DT.totalMs, bind, Except.bind, pure, Except.pure]
+  · by_cases hb : (1 ≤ m ∧ m ≤ 12) ∧ (1 ≤ d ∧ d ≤ 31)
+    · simp [hb, parseItems, toNaiveDate_ymd y m d none, hv, finish, bind, Except.bind, PErr.msg]
+    · simp [hb, hv, finish, bind, Except.bind, PErr.msg]
 
 theorem stringToTime_timeText (h mi s : Nat) (hh : h < 100) (hmi : mi < 100) (hs : s < 100) :
     stringToTime [(.str (timeText h mi s) : Value N)] =
       if h < 24 ∧ mi < 60 ∧ s < 60 then some (.ok (encode ⟨0, (h * 3600 + mi * 60 + s) * 1000⟩))
       else some (.error (custom "input is out of range")) := by
-  rw [stringToTime_str, parseTime_timeText h mi s hh hmi hs]
-  by_cases hv : h < 24 ∧ mi < 60 ∧ s < 60
-  · have : (decide (h < 24) && decide (mi < 60) && decide (s < 60)) = true := by simp [hv.1, hv.2.1, hv.2.2]
-    simp only [this, if_true, if_pos hv]
-  · have : (decide (h < 24) && decide (mi < 60) && decide (s < 60)) = false := by
-      simp only [Bool.and_eq_false_iff, decide_eq_false_iff_not]; omega
-    simp only [this, if_neg hv, Bool.false_eq_true, if_false]
+  have hp := parse_time_chars h mi s hh hmi hs none none none
+  rw [timeText_chars h mi s hh hmi hs]
+  simp only [stringToTime, defaultString, List.getElem?_cons_succ, List.getElem?_nil, parseAll, items_fmtTime]
+  rw [hp]
+  by_cases hv : h < 24 ∧ mi < 60 ∧ s ≤ 60
+  · rw [if_pos hv]
+    have ht := toNaiveTime_hms
+      ({ hourDiv12 := some (h / 12), hourMod12 := some (h % 12), minute := some mi, second := some s } : Parsed)
+      h mi s none rfl rfl rfl rfl rfl
+    simp only [bind, Except.bind, ht]
+    by_cases h60 : s = 60
+    · have : ¬ (h < 24 ∧ mi < 60 ∧ s < 60) := by omega
+      simp [rejectLeap, h60, finish, PErr.msg, this]
+    · have h3 : h < 24 ∧ mi < 60 ∧ s < 60 := by omega
+      have h4 : min s 59 = s := by omega
+      simp [rejectLeap, h60, finish, h3, h4, pure, Except.pure, NDT.millis, NDT.timestamp, encode, encodeMs, DT.totalMs, msPerDay]
+  · have : ¬ (h < 24 ∧ mi < 60 ∧ s < 60) := by omega
+    simp [hv, this, bind, Except.bind, finish, PErr.msg]
 
-theorem datetimeText_split (y : Int) (m d h mi s : Nat) (h0 : 0 ≤ y) (h1 : y ≤ 9999) (hm : m < 100) (hd : d < 100)
+theorem datetimeText_chars (y : Int) (m d h mi s : Nat) (h0 : 0 ≤ y) (h1 : y ≤ 9999) (hm : m < 100) (hd : d < 100)
     (hh : h < 100) (hmi : mi < 100) (hs : s < 100) :
-    (datetimeText y m d h mi s).length = 19 ∧ (datetimeText y m d h mi s)[10]? = some ' ' ∧
-    (datetimeText y m d h mi s).take 10 = dateText y m d ∧ (datetimeText y m d h mi s).drop 11 = timeText h mi s := by
-  rw [datetimeText, dateText_chars y m d h0 h1 hm hd, timeText_chars h mi s hh hmi hs]
-  simp
+    datetimeText y m d h mi s =
+      (y.toNat / 1000).digitChar :: (y.toNat / 100 % 10).digitChar :: (y.toNat / 10 % 10).digitChar ::
+       (y.toNat % 10).digitChar :: '-' :: (m / 10).digitChar :: (m % 10).digitChar :: '-' ::
+       (d / 10).digitChar :: (d % 10).digitChar :: ' ' ::
+       [(h / 10).digitChar, (h % 10).digitChar, ':', (mi / 10).digitChar, (mi % 10).digitChar, ':',
+        (s / 10).digitChar, (s % 10).digitChar] := by
+  rw [datetimeText, dateText_chars y m d h0 h1 hm hd, timeText_chars h mi s hh hmi hs]; rfl
 
 theorem stringToDatetime_datetimeText (y : Int) (m d h mi s : Nat) (h0 : 0 ≤ y) (h1 : y ≤ 9999)
     (hv : validDate y m d = true) (hh : h < 24) (hmi : mi < 60) (hs : s < 60) :
     stringToDatetime [(.str (datetimeText y m d h mi s) : Value N)] =
       some (.ok (encode ⟨daysFromCivil y m d, (h * 3600 + mi * 60 + s) * 1000⟩)) := by
-  have hmd := ((validDate_iff y m d).1 hv).2
-  have hdm : d ≤ 31 := by
-    rcases daysInMonth_cases y m hmd.1 hmd.2.1 with ⟨_, e⟩ | ⟨_, e⟩ | ⟨_, _, e⟩ | ⟨_, _, e⟩ <;>
-      have := hmd.2.2.2 <;> omega
-  have hm : m < 100 := by have := hmd.2.1; omega
-  obtain ⟨e1, e2, e3, e4⟩ := datetimeText_split y m d h mi s h0 h1 hm (by omega) (by omega) (by omega) (by omega)
-  rw [stringToDatetime_str, e1, e2, e3, e4, parseDate_dateText y m d h0 h1 hm (by omega),
-    parseTime_timeText h mi s (by omega) (by omega) (by omega)]
-  have : (decide (h < 24) && decide (mi < 60) && decide (s < 60)) = true := by simp [hh, hmi, hs]
-  simp only [hv, this, if_true, beq_self_eq_true, Bool.and_self]
+  have hb := validDate_bounds hv
+  have hy : ((y.toNat : Nat) : Int) = y := by omega
+  rw [datetimeText_chars y m d h mi s h0 h1 (by omega) (by omega) (by omega) (by omega) (by omega)]
+  simp only [stringToDatetime, defaultString, List.getElem?_cons_succ, List.getElem?_nil, parseAll, items_fmtDatetime]
+  rw [parse_date_chars y.toNat m d (by omega) (by omega) (by omega), if_pos hb,
+    parseItems_ok (item_space_dc _ _ (by omega) _ _),
+    parse_time_chars h mi s (by omega) (by omega) (by omega) (some ((y.toNat : Nat) : Int)) (some m) (some d), if_pos ⟨hh, hmi, by omega⟩, hy]
+  have ht := toNaiveTime_hms
+    ({ year := some y, month := some m, day := some d, hourDiv12 := some (h / 12), hourMod12 := some (h % 12),
+       minute := some mi, second := some s } : Parsed) h mi s none rfl rfl rfl rfl rfl
+  have hdte : Parsed.toNaiveDate { year := some y, month := some m, day := some d, hourDiv12 := some (h / 12), hourMod12 := some (h % 12), minute := some mi, second := some s } = .ok (daysFromCivil y m d) := by
+    simp [Parsed.toNaiveDate, resolveYear, fromYmd, hv, verifyIsoWeekDate, verifyOrdinal, optEqOr]
+  have h60 : ¬ s = 60 := by omega
+  have h4 : min s 59 = s := by omega
+  simp only [bind, Except.bind, Parsed.toNaiveDatetime, hdte, ht]
+  simp [rejectLeap, h60, h4, finish, pure, Except.pure, NDT.millis, NDT.timestamp, encode, encodeMs, DT.totalMs, msPerDay]
+  congr 2; omega
 
 end
 
 variable {N : Type} [NumX N] [LawfulTimeNum N]
 
 theorem dateToString_encode (fmt : Str) (t : DT) (h : t.Enc) :
-    dateToString [.str fmt, (encode t : Value N)] = (strftime t fmt).map fun s => .ok (.str s) := by
+    dateToString [.str fmt, (encode t : Value N)] =
+      some (fmtResult (strftime t fmt)) := by
   rw [dateToString_str, decode_encode t h]
 
 end Slac.Time
